@@ -553,7 +553,7 @@ theorem tensordotAxes_eq_spec (sa sb : Shape) (la ra : List Int) (la' ra' : List
       (pos_filterMap_getElem? sb fb hpb)
     refine ⟨r, hr, hrsh, ?_⟩
     intro d hd
-    obtain ⟨p, q, rfl, hp, hq⟩ := inShape_append_split hd
+    obtain ⟨p, q, rfl, hp, hq⟩ := mb_inShape_append_split hd
     rw [hrget p q hp hq]
     apply List.map_congr_left
     intro c hc
